@@ -184,7 +184,7 @@ pub fn parse_date(s: &str) -> Date {
     acb::util::date::parse_standard_date(s).expect("harness date")
 }
 
-const SECS: [&str; 6] = ["FOO", "BAR", "XYZ", "VFV.TO", "QQQ", "ZAG"];
+const SECS: [&str; 11] = ["FOO", "BAR", "XYZ", "VFV.TO", "QQQ", "ZAG", "MMM", "AAPL", "T", "XIC.TO", "BNS"];
 const AFFS: [&str; 5] = ["Default", "Default (R)", "Spouse", "Spouse (R)", "Kid"];
 
 struct AfState {
@@ -206,7 +206,9 @@ fn cents_str(c: i64) -> String {
 
 pub fn generate(seed: u64, k_seeds: usize) -> Sc {
     let mut r = Rng::new(seed);
-    let n_sec = r.weighted(&[2, 4, 3, 2]) + 1;
+    // mostly 1-4 securities; sometimes many (6-10), most of them tiny and error-prone
+    let many = r.chance(1, 14);
+    let n_sec = if many { r.range(6, 10) as usize } else { r.weighted(&[2, 4, 3, 2]) + 1 };
     let mut secs: Vec<&str> = SECS.to_vec();
     r.shuffle(&mut secs);
     secs.truncate(n_sec);
@@ -255,8 +257,37 @@ pub fn generate(seed: u64, k_seeds: usize) -> Sc {
             st.get_mut("Default").unwrap().shares = n * 1000;
             symbol_base.push(format!("{}:{}:{}", sec, n, cents_str(n * r.range(500, 9000))));
         }
-        let n_events = r.range(3, 16);
-        let mut day = d(start_year, 1, 1) + Duration::days(r.range(0, 200));
+        let plain_row = |dd: Date, action: &str, qty: &str, price: &str| -> (Date, Vec<String>) {
+            let mut row = vec![String::new(); HEADER.len()];
+            row[C_SEC] = sec.to_string();
+            row[C_TRADE] = dd.to_string();
+            row[C_SETTLE] = (dd + Duration::days(settle_off)).to_string();
+            row[C_ACTION] = action.to_string();
+            row[C_SHARES] = qty.to_string();
+            row[C_AMT] = price.to_string();
+            (dd, row)
+        };
+        let first_day = d(start_year, 1, 1) + Duration::days(r.range(0, 200));
+        if many && *sec != secs[0] && r.chance(1, 2) {
+            // a security that only sells: an error ("more than the current holdings"), nothing else
+            all_rows.push(plain_row(first_day, "Sell", "5", "10.00"));
+            continue;
+        }
+        if r.chance(1, 15) {
+            // a security whose only recorded event is a split of an opening position
+            if !symbol_base.iter().any(|b| b.starts_with(&format!("{}:", sec))) {
+                symbol_base.push(format!("{}:{}:{}", sec, 10, "250.00"));
+            }
+            let (dd, mut row) = plain_row(first_day, "Split", "", "");
+            row[C_SPLIT] = "2-for-1".to_string();
+            if r.chance(1, 2) {
+                row[C_MEMO] = "split".to_string();
+            }
+            all_rows.push((dd, row));
+            continue;
+        }
+        let n_events = if many { r.range(1, 4) } else { r.range(3, 16) };
+        let mut day = first_day;
         let end = d(start_year, 1, 1) + Duration::days(span_days);
         let mut last_global_split: Option<Date> = None;
         let mut force_tie_next = false;
@@ -288,6 +319,7 @@ pub fn generate(seed: u64, k_seeds: usize) -> Sc {
             }
             let near_split = |dd: Date, last: &Option<Date>| last.map(|l| (dd - l).whole_days().abs() <= 1).unwrap_or(false);
             let mut sold_by: Option<&str> = None;
+            let mut equal_then_oversell: Option<(&str, i64, &str, i64)> = None;
             match kind {
                 0 | 5 => {
                     // Buy (5 = zero-cost buy: keeps the ACB, creates a tied day)
@@ -308,6 +340,18 @@ pub fn generate(seed: u64, k_seeds: usize) -> Sc {
                     set_aff(&mut row, a, &mut r);
                     if kind == 0 && r.chance(1, 3) {
                         force_tie_next = true;
+                    }
+                    if affs.len() >= 3 && r.chance(1, 12) {
+                        // another affiliate tops up to exactly the same holding, then a third one oversells
+                        let others: Vec<&str> = affs.iter().copied().filter(|x| *x != a).collect();
+                        let b = others[0];
+                        let c = others[1];
+                        let diff = st[a].shares - st[b].shares;
+                        if diff > 0 {
+                            equal_then_oversell = Some((b, diff, c, st[c].shares + 1000 * r.range(1, 5)));
+                            st.get_mut(b).unwrap().shares += diff;
+                            st.get_mut(c).unwrap().shares = 0;
+                        }
                     }
                 }
                 1 => {
@@ -411,6 +455,14 @@ pub fn generate(seed: u64, k_seeds: usize) -> Sc {
                 row[C_MEMO] = (*r.pick(&["note", "drip", "vest", "rebalance to target", "tax loss harvest - see advisor notes", "lot 3, per advisor", "said \"hold\"", "line one\nline two", "r\u{e9}\u{e9}quilibrage \u{2014} \u{65e5}\u{672c}"])).to_string();
             }
             all_rows.push((day, row));
+            if let Some((b, diff, c, q)) = equal_then_oversell {
+                let (dd, mut r1) = plain_row(day, "Buy", &shares_str(diff), "10.00");
+                r1[C_AFF] = b.to_string();
+                all_rows.push((dd, r1));
+                let (dd, mut r2) = plain_row(day + Duration::days(1), "Sell", &shares_str(q), "10.00");
+                r2[C_AFF] = c.to_string();
+                all_rows.push((dd, r2));
+            }
             // Shapes around a sale (the 30-day windows of a possible loss):
             if let Some(seller) = sold_by {
                 let others: Vec<&str> = affs.iter().copied().filter(|x| *x != seller).collect();
